@@ -8,7 +8,8 @@ data.  Scenarios over generated, fully defined functions:
    chain                     racing call_next chains
    dependent                 racing first calls that generate a value-dependent dispatcher
    method                    racing first calls through an OvldBase instance attribute
-   miss-shape                racing cache misses of different call shapes (one / two positionals, optional parameters)
+   miss-shape / first-shape  racing cache misses / first calls of different call shapes (one / two positionals) on
+                             a function with optional parameters (its entry point needs defaults)
 Schedules: ALL single-pre-emption schedules of a scenario (exhaustive for that scenario; strided in the quick tier),
 two-pre-emption schedules (first thread pre-empted at one of its first 16 / 80 yield points x the second one anywhere)
 on the racing first calls,
@@ -31,8 +32,8 @@ from vlib.prog import Program
 
 HIER = {"classes": [{"bases": []}, {"bases": [0]}, {"bases": []}, {"bases": [1, 2]}]}
 KN = ["K0", "K1", "K2", "K3"]
-SCENARIOS = ["first-same", "first-diff", "miss-same", "miss-diff", "miss-shape", "chain", "chain-cross", "dependent",
-             "method"]
+SCENARIOS = ["first-same", "first-diff", "first-shape", "miss-same", "miss-diff", "miss-shape", "chain", "chain-cross",
+             "dependent", "method"]
 PAIR_SCENARIOS = ["first-same", "first-diff"]  # two pre-emptions: (early in one thread) x (anywhere in the other)
 
 
@@ -78,7 +79,7 @@ def scenario(name, variant=0):
                     probes=[iv(5), iv(0), iv(1), iv(-3), {"args": [["str", "s"]], "kw": {}, "script": []}])
     if name == "method":
         return dict(methods=base, host="mc", warm=[], racers=[k("K1"), k("K3")], probes=probes)
-    if name == "miss-shape":
+    if name in ("miss-shape", "first-shape"):
         # racing cache misses of DIFFERENT call shapes (one vs two positionals) over methods whose declared types
         # cross at the optional position: f(K1, obj=..), f(obj, K1=..), f(K1, K1)
         def P(name, ann, opt=False):
@@ -88,7 +89,8 @@ def scenario(name, variant=0):
               {"id": 2, "prio": 0, "kw": [], "sites": [], "pos": [P("a0", ["cls", "K1"]), P("a1", ["cls", "K1"])]}]
         one = k("K1")
         two = {"args": [["inst", "K1"], ["inst", "K1"]], "kw": {}, "script": []}
-        return dict(methods=ms, host="func", warm=[k("K0")], racers=[one, two] if not variant else [two, one],
+        return dict(methods=ms, host="func", warm=[k("K0")] if name == "miss-shape" else [],
+                    racers=[one, two] if not variant else [two, one],
                     probes=[one, two, k("K0"), {"args": [["inst", "K0"], ["inst", "K1"]], "kw": {}, "script": []}])
     raise ValueError(name)
 
@@ -313,7 +315,7 @@ class Check:
     id = "C19"
     level = "exploration"
     rule = (
-        "Harness-owned schedules (cooperative scheduler, every executed library line is a yield point) over 9 racing "
+        "Harness-owned schedules (cooperative scheduler, every executed library line is a yield point) over 10 racing "
         "scenarios: quick = every 5th single-pre-emption point of each scenario in both thread orders, two-pre-emption "
         "schedules (first 16 points of one thread x every 25th of the other) on the racing first calls, plus 400 "
         "Hypothesis-drawn schedules with 1-3 pre-emptions (2 or 3 threads); thorough = ALL single-pre-emption points, "
